@@ -604,6 +604,7 @@ with_conform(PROPS["C14"], "Generic", "Workers")
 with_conform(PROPS["C11"], "Exclusive")
 with_conform(PROPS["C15"], "Notifier")
 with_conform(PROPS["C18"], "Retry")
+with_conform(PROPS["C19"], "Callable")
 with_conform(PROPS["C20"], "Attempt")
 # the hook points the T3/T4 harness relies on
 with_conform(PROPS["C01"], "HooksBuffer")
